@@ -257,8 +257,24 @@ impl Hist {
 		let chain = self.chain_outs(i);
 		let view = self.node_view(i);
 		let parent = self.active(i);
+		// one scan in six meets a node whose output query fails: the scan has no refreshed view of the
+		// wallet to repair from and must say so
+		let outage = self.p.chance(1, 6);
+		if outage {
+			self.s.node.fail_outputs.store(true, std::sync::atomic::Ordering::Relaxed);
+		}
 		let res = guarded(|| owner::scan(self.s.wallets[i].inst.clone(), None, Some(1), del, &None));
 		let rc = rc_of(&res);
+		if outage {
+			self.s.node.fail_outputs.store(false, std::sync::atomic::Ordering::Relaxed);
+			self.record(
+				i,
+				json!({"k": "scan", "del": del, "parent": parent, "outage": true, "rc": rc}),
+				rc.clone(),
+				json!({"nomodel": rc == vec![0]}),
+			);
+			return;
+		}
 		self.record(i, json!({"k": "scan", "chain": chain, "del": del, "parent": parent, "view": view}), rc, json!({}));
 	}
 	fn record_with(&mut self, i: usize, op: Value, rc: Vec<u64>, extra: Value) {
@@ -1255,6 +1271,10 @@ impl Hist {
 		}
 		if self.p.coin() {
 			self.refresh(sender, true);
+		}
+		// the wallet's periodic update (refresh, kernels, scan, expiry) also runs while the payment is out
+		if self.p.coin() {
+			self.update_state(r_i);
 		}
 		match self.p.below(3) {
 			0 => {
